@@ -5,7 +5,7 @@ from .. import common, gen, pool, pipefam, readerfam
 RULE = ("result files produced by the real library stages from generated pairs with every strand mixture (all +, all -, with '.', mixed; "
         "gene rows shuffled), loaded through every provided constructor (DensityData(...) with the cached GeneData and with a GeneData in a row order of its own, verify_h5_cache, the two "
         "directory-level constructors) in a fresh directory each; every gene column (both TE levels, all groups and windows) compared with the raw arrays; "
-        "raw file hashed before/after; non-trivial = at least one minus and one non-minus gene; distinct = (case, constructor)")
+        "raw file hashed before/after; plus synthetic result files in the code's layout with up to 10^7 values per array (2 files quick, 6 thorough), a few per cent minus genes, one of them among the last genes; non-trivial = at least one minus and one non-minus gene; distinct = (case, constructor)")
 HOWS = ["ctor", "ctor_shuffled", "verify", "dir", "regex"]
 
 
@@ -69,11 +69,28 @@ def run(chk):
                 chk.violation("strand-aware reader does not exchange upstream/downstream exactly for the minus-strand genes (or modifies the raw file)",
                               {"case": {k: c[k] for k in ("genes", "tes", "windows")}, "constructor": how, "failures": fails[:6]})
     chk.oblige("correspondence model = implementation (per gene column: raw / exchanged)", ndiff == 0, json.dumps(first)[:2000] if first else "")
+    # size: result files far larger than any generated pair gives (the exchange must not depend on how much there is to exchange)
+    shapes = [(6, 9, 8, 3000), (2, 60, 200, 700)] if chk.tier == "quick" else \
+        [(6, 9, 8, 3000), (2, 60, 200, 700), (12, 48, 40, 2600), (30, 64, 30, 2400), (4, 6, 200, 1500), (2, 100, 100, 900)]
+    sreqs = [{"op": "reader.synthetic", "shape": sh, "seed": chk.seed + i, "minus": 0.04, "minus_tail": True, "shuffle_genes": i % 2 == 1}
+             for i, sh in enumerate(shapes)]
+    for rq, rep in zip(sreqs, pool.run_requests(sreqs, timeout=900)):
+        chk.count("synthetic_result_file_values_per_array<=%d" % (10 ** len(str(rq["shape"][1] * rq["shape"][2] * rq["shape"][3]))))
+        bad = (not rep.get("ok")) or rep.get("n_bad_genes") or not rep.get("raw_unchanged")
+        chk.case_seen(["synthetic", rq["shape"], rq["seed"]], True)
+        if bad:
+            nv += 1
+            chk.violation("strand-aware reader on a large result file: gene columns not exchanged exactly for the minus-strand genes",
+                          {"synthetic": rq, "outcome": {k: rep.get(k) for k in ("ok", "exc", "msg", "n_bad_genes", "first_bad", "raw_unchanged", "n_minus", "values_per_array")}})
     chk.sample({"genes": [(g["name"], g["strand"]) for g in sessions[0][0]["genes"]], "constructor": sessions[0][1]})
     return chk.finish(rule=RULE)
 
 
 def replay(chk, rp):
+    if "synthetic" in rp:
+        rep = pool.run_requests([rp["synthetic"]], timeout=900)[0]
+        print(json.dumps(rep, indent=1))
+        return 1 if (not rep.get("ok")) or rep.get("n_bad_genes") or not rep.get("raw_unchanged") else 0
     rep = pool.run_requests([{"op": "reader.session", "case": rp["case"], "steps": [{"how": rp["constructor"]}]}])[0]
     fails = []
     if not rep.get("ok") or rep["steps"][0].get("error"):
